@@ -42,6 +42,30 @@ Proof. exact signature_conflict. Qed.
 Theorem C08_spec : forall d others, spec_C08 (d :: others) (key_signature d others) = true.
 Proof. exact spec_C08_holds. Qed.
 
+(** reference chains: populating a plural / range without a `count` argument keeps its count key (whatever other
+    arguments are passed), with a single variable that variable becomes the count key, with a literal number the selected
+    branch remains and the count is gone ([cid] = `var_count`; which branch a literal selects is an oracle) *)
+Theorem C08_chain_count_key : forall cid args,
+  (alookup cid args = None ->
+     (forall ck fs o, populate cid args (PPlural ck fs o) = PPlural ck (map (populate cid args) fs) (populate cid args o)) /\
+     (forall ty ck bs, populate cid args (PRanges ty ck bs) = PRanges ty ck (map (populate cid args) bs))) /\
+  (forall k f, alookup cid args = Some (PaVal (PVar k f)) ->
+     (forall ck fs o, populate cid args (PPlural ck fs o) = PPlural k (map (populate cid args) fs) (populate cid args o)) /\
+     (forall ty ck bs, populate cid args (PRanges ty ck bs) = PRanges ty k (map (populate cid args) bs))) /\
+  (forall n t, alookup cid args = Some (PaCountLit n t) ->
+     (forall ck fs o, populate cid args (PPlural ck fs o) = nth n (map (populate cid args) fs ++ [populate cid args o]) (PLit LString)) /\
+     (forall ty ck bs, populate cid args (PRanges ty ck bs) = nth n (map (populate cid args) bs) (PLit LString))).
+Proof. exact chain_count_key. Qed.
+
+(** `things = $t(items, {"count": "{{ n }}"})` reached again through any number of references that pass no `count`
+    (`alias = $t(things)`, `$t(things, {"unrelated": ..})`): still a plural counting on `n`, and on nothing else first *)
+Theorem C08_chain_rename_then_plain : forall cid k f ck fs o (hops : list (list (key * parg))),
+  (forall a, In a hops -> alookup cid a = None) ->
+  exists fs' o',
+    fold_left (fun v a => populate cid a v) hops (populate cid [(cid, PaVal (PVar k f))] (PPlural ck fs o)) = PPlural k fs' o'
+    /\ hd_error (count_keys (PPlural k fs' o')) = Some (k, RPlural).
+Proof. exact chain_rename_then_plain. Qed.
+
 (** one builder field per variable and per component *)
 Theorem C08_fields : forall ik x, In x (make_fields ik) <-> In x (map fst (ik_vars ik)) \/ In x (ik_comps ik).
 Proof. exact make_fields_In. Qed.
@@ -54,3 +78,11 @@ Proof. vm_compute. reflexivity. Qed.
 Example C08_witness_conflict :
   key_signature (PRanges 2 7 [PLit LString]) [PPlural 7 [PLit LString] (PLit LString)] = KErr EMix.
 Proof. vm_compute. reflexivity. Qed.
+
+(* items = plural on var_count (7); things = $t(items, {count: {{ n }}}) (n = 9); alias = <b>$t(things)</b> *)
+Example C08_chain_witness :
+  key_signature (resolve 7 (SComp 3 (SRef (SRef (SVal (PPlural 7 [PLit LString] (PVar 7 0))) [(7, SaVal (SVal (PVar 9 0)))]) [])))
+                []
+  = KOk (IInterpol (mk_ik [3] [(9, mk_vi [0] (Some RPlural))])).
+Proof. vm_compute. reflexivity. Qed.
+
